@@ -13,3 +13,13 @@ package repl
 //@   precall CreateTemp requires dirty:: updates != 0
 //@   precall SaveGlobals requires directfile:: isType(arg1, *os.File)
 //@   property C18
+
+// EvalOne's recovery handler (C10): when a panic was recovered, the session is back at the top level: root scope,
+// depth 0, and the output writer the session had when the input was submitted.
+//@ func EvalOne$1
+//@   requires s != nil
+//@   modifies *
+//@   nosafety
+//@   ensures  reset:: implies(panicked && !old(panicked), s.depth == 0 && s.env == s.rootEnv && s.Out == savedOut)
+//@   ensures  untouched:: implies(!panicked, s.depth == old(s.depth) && s.env == old(s.env) && s.Out == old(s.Out))
+//@   property C10
